@@ -30,7 +30,7 @@ ASSUMPTIONS = [
     'joinstr joins in the iteration order of the Python set; the harness reads that order from the same set object',
     'account_sortkey/possign use the account types of the ledger options (read from the attached connection)',
     'not counted as violations (model and implementation both raise): splitcomp index out of range, maxwidth width < 5, '
-    'date_bin with zero stride or unparsable stride, dates/years leaving 0001..9999',
+    'date_bin with zero stride, dates/years leaving 0001..9999',
 ]
 
 LO = DATE(1900, 1, 1).toordinal()
@@ -427,7 +427,7 @@ BIN_ORIGINS = [DATE(2000, 1, 1), DATE(2000, 1, 31), DATE(2000, 2, 29), DATE(1999
 
 
 def bin_rows(tier, rng):
-    near, step = (20, 2477) if tier == 'quick' else (400, 97)
+    near, step = (20, 2477) if tier == 'quick' else (200, 397)
     rows = []
     for o in BIN_ORIGINS:
         oo = o.toordinal()
@@ -546,7 +546,7 @@ def small_decimals(coefs):
 
 def dec1_rows(tier, rng):
     if tier == 'thorough':
-        coefs = list(range(0, 10000))
+        coefs = list(range(0, 10000, 3)) + [9995, 9999]
     else:
         coefs = sorted(set(list(range(0, 130)) + [rng.randrange(10000) for _ in range(250)]
                            + [k * 10 + 5 for k in range(0, 1000, 37)] + [9995, 9999, 5000, 4999, 5001, 2500, 1250]))
@@ -572,6 +572,8 @@ def div_rows(tier, rng):
     pool = small_decimals(base if tier == 'thorough' else base[::2] + [7, 9999])
     if tier == 'quick':
         pool = [x for k, x in enumerate(pool) if k % 3 == 0 or x == 0]
+    else:
+        pool = [x for k, x in enumerate(pool) if k % 2 == 0 or x == 0]
     ints = [0, 1, -1, 2, 3, 7, -9, 10, 64, 1000, 12345678901234567890123456789012]
     rows = []
     k = 0
@@ -906,7 +908,7 @@ def run(tier, rng):
         'exception_cells_agreeing_with_model': errors_agreed,
         'histograms': histograms(all_rows),
         'exhaustive': {'dates_1900_2100': tier == 'thorough', 'strings_len_le_4': tier == 'thorough',
-                       'account_names_1_5_components': True, 'decimals_4_digits': tier == 'thorough'},
+                       'account_names_1_5_components': True, 'decimals_4_digits': False},
     }
     return {'coverage': cov, 'violations': violations}
 
